@@ -213,7 +213,7 @@ RunRecord run_ampls_session(const sim::Json& sc) {
         g.event("API_SET " + name + " rc=" + std::to_string(rc));
       }
       std::string nl = sim::scratch_dir() + "stub.nl";
-      rec.rc_load = AMPLSLoadNLModel(slv, nl.c_str(), lopt.data());
+      rec.rc_load = AMPLSLoadNLModel(slv, nl.c_str(), ses["load_options_null"].as_bool() ? nullptr : lopt.data());   // NULL: "no extra options" - the environment still applies
       g.event("API_LOAD rc=" + std::to_string(rec.rc_load));
       for (auto& rd : ses["rounds"].arr()) {
         RunRecord::Round r;
